@@ -5,6 +5,7 @@ CONSTANTS
   MaxRot = 1
   Dedup = TRUE
   Recheck = TRUE
+  ReaderFallback = TRUE
 CONSTRAINT Emit
 CONSTRAINT Stop
 CHECK_DEADLOCK FALSE
